@@ -20,6 +20,22 @@ All statements are about the model functions that `drv_c01` executes (`FeatModel
 `Csr.applyAxpy`, …); the correspondence run ties those to `Arch::Apply::*_generic` and the container members.
 The dense meaning of a container is `entry i j` (sum of the stored values at `(i, j)`); `tiny` is the model of
 `Math::abs(·) < Math::eps<DT_>()`.
+
+## What is modelled as unbounded, and what ties it to the C++ types
+
+* `Index` (`std::uint64_t`) and the index type `IT_` (`std::uint32_t` / `std::uint64_t`) of `row_ptr`, `col_ind`,
+  `row_numbers`, `offsets` and of the row-loop variable are modelled by unbounded `Nat`; array positions such as
+  `a*rows + l`, `i*bh*bw + h*bw + w`, `row*columns + col`, `l + offsets[a] + 1 - rows` are `Nat` expressions (truncated
+  subtraction where the C++ relies on the preceding guard); the `Index(-1)` sentinel of `start_offset`/`end_offset` is an
+  `Option`.  The block sizes `BlockHeight_/BlockWidth_` (`int` template parameters, `Tiny` loops over `int`) are `Nat`.
+* The scalars are exact rationals (`Q` in the harness); floating point enters only through `FlModel` (tier B) and the
+  `f64-`/`f32-nan-prefill` streams.
+* There is no narrow integer type, fixed scratch buffer, unrolling remainder, tiling factor or size threshold in the
+  `Apply` kernels and the `apply` members (the only size-dependent path, `FEAT_UNROLL_BANDED` for 3/5/9/25 bands, is compiled
+  out), so the theorems do not see any boundary below `2^32`; `C01.index32_*` state the `2^32` conditions.  What ties the
+  unbounded model to the bounded C++ types below that is the correspondence run, in particular the stream
+  `boundary-sizes` (dimensions, index values and counts at 127/128/129, 255/256/257, 1000/1001, thorough also
+  32767/32768 and 65535/65536/65537, 32-bit `IT_`, entries / stored CSCR rows / non-zero operands at the high end).
 -/
 open Finset FeatModel.LA
 
